@@ -30,9 +30,9 @@ var slotTable = map[string][]slotDef{
 		{"scripts.postinstall", "postinst", func(s *gen.Spec, p string) { s.Scripts.PostInstall = p }, 0o755},
 		{"scripts.preremove", "prerm", func(s *gen.Spec, p string) { s.Scripts.PreRemove = p }, 0o755},
 		{"scripts.postremove", "postrm", func(s *gen.Spec, p string) { s.Scripts.PostRemove = p }, 0o755},
-		{"deb.scripts.rules", "rules", func(s *gen.Spec, p string) { s.Deb.Rules = p }, 0o755},
-		{"deb.scripts.templates", "templates", func(s *gen.Spec, p string) { s.Deb.Templates = p }, 0o644},
-		{"deb.scripts.config", "config", func(s *gen.Spec, p string) { s.Deb.Config = p }, 0o755},
+		{"deb.scripts.rules", "rules", func(s *gen.Spec, p string) { s.Deb.Rules = p }, 0},
+		{"deb.scripts.templates", "templates", func(s *gen.Spec, p string) { s.Deb.Templates = p }, 0},
+		{"deb.scripts.config", "config", func(s *gen.Spec, p string) { s.Deb.Config = p }, 0},
 	},
 	"ipk": {
 		{"scripts.preinstall", "preinst", func(s *gen.Spec, p string) { s.Scripts.PreInstall = p }, 0o755},
